@@ -23,11 +23,12 @@ open Goyang.Spec (Date parseDate)
 
 abbrev Listing := List (Name × FsNode)
 
-/-- The date of `fn` when `fn` is `m@YYYY-MM-DD.yang`. -/
+/-- The date of `fn` when `fn` is `m@YYYY-MM-DD.yang`: `m`, then `@`, then the ten characters
+of a date, then `.yang` and nothing more. -/
 def datedOf (m fn : Name) : Option Date :=
-  if fn.length = m.length + 16 ∧ fn.take m.length = m ∧ fn.drop (m.length + 11) = ".yang".toList ∧
-      fn[m.length]? = some '@' then
-    parseDate ((fn.drop (m.length + 1)).take 10)
+  if fn.take m.length = m then
+    let rest := fn.drop m.length
+    if rest.head? = some '@' ∧ rest.drop 11 = ".yang".toList then parseDate ((rest.drop 1).take 10) else none
   else none
 
 /-- The names of the regular files of a listing. -/
